@@ -7,6 +7,9 @@ package core
 // CheckIfValidWorkShare run the production digest checks and memoisation.
 
 import (
+	lru "github.com/hashicorp/golang-lru/v2"
+
+	"github.com/dominant-strategies/go-quai/common"
 	"github.com/dominant-strategies/go-quai/consensus"
 	"github.com/dominant-strategies/go-quai/consensus/kawpow"
 	"github.com/dominant-strategies/go-quai/consensus/progpow"
@@ -16,9 +19,15 @@ import (
 func VerifC08KernelChain() *HeaderChain {
 	logger := verifC08Logger()
 	cfg := params.PowConfig{PowMode: params.ModeTest}
-	return &HeaderChain{
+	hc := &HeaderChain{
 		engine:    []consensus.Engine{progpow.New(cfg, nil, false, logger), kawpow.New(cfg, nil, false, logger)},
 		powConfig: params.PowConfig{PowMode: params.ModeNormal, WorkShareThreshold: 4},
 		logger:    logger,
 	}
+	// the memoisation layers NewHeaderChain sets up (a chain object without them would hide what a
+	// cache keyed too coarsely does)
+	hc.powHashCache, _ = lru.New[common.Hash, common.Hash](c_powCacheLimit)
+	hc.calcOrderCache, _ = lru.New[common.Hash, calcOrderResponse](c_calcOrderCacheLimit)
+	hc.numberCache, _ = lru.New[common.Hash, uint64](numberCacheLimit)
+	return hc
 }
